@@ -4,12 +4,14 @@
 Instance: every `if (c) { C.push_back(x) / C.insert(x); ... }` inside a loop, with C a local container
 declared outside that loop. Obligation: the branch does not `break` out of the loop right after
 recording the match — a container that can only ever receive one element contradicts collecting
-(all positions of a state in a tuple matter: f(q,q))."""
+(all positions of a state in a tuple matter: f(q,q)).
+Second clause (`once`): a for / range-for loop whose body records into a container declared outside the
+loop does not end in an unconditional `break` (found F15: the NFA dump wrote one start symbol only)."""
 from vfacts import strip, walk, method_name, root_path, enclosing, is_node
 from .prov import var_table
 
 RULE = 'COLLECTALL'
-FLOOR = 8
+FLOOR = 50
 LOOPS = ('ForStmt', 'WhileStmt', 'CXXForRangeStmt', 'DoStmt')
 
 
@@ -40,3 +42,35 @@ def run(unit, em):
                     em.violation(c, txt, 'the loop stops right after recording the first match in %s: later matches (a state occurring at several positions of a tuple) are never collected' % o['n'])
                 else:
                     em.ok(c, txt, 'all matches are collected')
+        # ---- a collecting loop that always leaves after its first iteration
+        for lp in fn.walk():
+            if lp['k'] not in ('CXXForRangeStmt', 'ForStmt') or not is_node(lp.get('body')):
+                continue
+            body = lp['body']
+            stmts = body.get('ch', []) if body['k'] == 'CompoundStmt' else [body]
+            if not stmts:
+                continue
+            inner = {d['d'] for x in walk(lp) if x['k'] == 'DeclStmt' for d in x.get('decls', [])}
+            if lp['k'] == 'CXXForRangeStmt':
+                inner.add(lp['var']['d'])
+            recs = []
+            for s in stmts:
+                c = strip(s)
+                if c is not None and c['k'] == 'CXXMemberCallExpr' and method_name(c) in ('push_back', 'emplace_back', 'insert', 'emplace') and not c.get('const'):
+                    rp = root_path(c.get('obj'))
+                    o = strip(c.get('obj'))
+                    base = o
+                    while base is not None and base['k'] == 'MemberExpr' and (base.get('ch') or base.get('obj')):
+                        base = strip(base['ch'][0] if base.get('ch') else base.get('obj'))
+                    if base is not None and base['k'] == 'DeclRefExpr' and base.get('d') not in inner:
+                        recs.append(c)
+                    elif base is not None and base['k'] == 'CXXThisExpr':
+                        recs.append(c)
+            if not recs:
+                continue
+            last = stmts[-1]
+            txt = unit.text(recs[0], 70)
+            if last['k'] == 'BreakStmt':
+                em.violation(recs[0], txt, 'the loop records an element per iteration into a container declared outside it, but its body ends in an unconditional `break`: only the first element is ever recorded, the others are silently dropped', 'once')
+            else:
+                em.ok(recs[0], txt, 'the collecting loop runs over all elements', 'once')
